@@ -57,6 +57,7 @@ type Program struct {
 	sentinels map[*ssa.Global]bool
 	views     map[*ssa.Function]*viewInfo
 	viewOf    map[*ssa.Function]*ssa.Function
+	nonNilMemo map[interface{}]bool
 }
 
 func loadProgram(root string) (*Program, error) {
@@ -159,6 +160,15 @@ func (p *Program) SPkg(short string) *ssa.Package      { return p.SSAPkgs[pkgPat
 // Func finds a package-level function ("Compile") or method ("(*Server).ServeHTTP",
 // "Server.ServeHTTP") of an internal package. Returns nil when absent.
 func (p *Program) Func(pkg, name string) *ssa.Function {
+	// Named roots are handed out as inlined views (see inlk.go): what a rule then establishes inside the root does
+	// not depend on which unexported helpers of the package the root's body happens to be split into.
+	if os.Getenv("HK_NOVIEWS") == "" {
+		return p.View(p.funcOrig(pkg, name))
+	}
+	return p.funcOrig(pkg, name)
+}
+
+func (p *Program) funcOrig(pkg, name string) *ssa.Function {
 	sp := p.SPkg(pkg)
 	if sp == nil {
 		return nil
